@@ -14,10 +14,46 @@ def _metrics_total(obs, fam):
     return sum(int(n) for f, n in re.findall(r"(\w+)\{[^}]*\}=(\d+)", m.group(1)) if f == fam)
 
 
+def _hdl_counts(obs):
+    m = re.search(r"\|metrics=([^|]*)", obs)
+    t = f = 0
+    if m and m.group(1) != "-":
+        for labels, n in re.findall(r"hdl\{([^}]*)\}=(\d+)", m.group(1)):
+            if "success=74727565" in labels:      # hex("true")
+                t += int(n)
+            elif "success=66616c7365" in labels:  # hex("false")
+                f += int(n)
+    return t, f
+
+
 def classify(req, obs, rule):
-    """Finding D15: the metrics publisher decorator does not observe (a) a call whose first message object already
-    carries the publishObserved mark, (b) an empty batch.  Only cases in which the undercount is exactly the number of
-    such calls (as counted by the harness' probe above the decorator) are attributed to the finding."""
+    """Open findings of C20, each matched by its exact arithmetic so that any other violation stays a violation.
+
+    D15: the metrics publisher decorator does not observe (a) a call whose first message object already carries the
+    publishObserved mark, (b) an empty batch.  Only cases in which the undercount is exactly the number of such calls
+    (as counted by the harness' probe above the decorator) are attributed to it.
+
+    handler-middleware-applied-twice: the handler middleware has no 'already observed' mark.  Only Router cases with the
+    middleware registered km >= 2 times in which every invocation is observed exactly km times with the right label
+    (over-count = (km-1) x invocations) are attributed to it; the monitor checks this rule last, so everything else in
+    the case is as the property says."""
+    if rule == "violated:metrics_handler_once" and req.startswith("rt "):
+        f = req.split()
+        try:
+            km = int(f[3])
+        except (IndexError, ValueError):
+            return None
+        if km < 2:
+            return None
+        outs = [] if f[5] == "-" else f[5].split(",")
+        ok = sum(1 for o in outs if o.startswith("s"))
+        bad = len(outs) - ok
+        m = re.search(r"\|inv=(\d+)\|", obs)
+        if not m or int(m.group(1)) != len(outs) or not outs:
+            return None
+        if _hdl_counts(obs) != (km * ok, km * bad):
+            return None
+        return "handler-middleware-applied-twice"
     if rule != "violated:metrics_publish_once" or not req.startswith("pub "):
         return None
     p = _probe(obs)
@@ -75,7 +111,8 @@ PROP = {
         "Wm.Decor.old_panic_label_witness",
         "Wm.Decor.router_step_no_output",
         "Wm.Decor.router_step_output",
-        "Wm.Decor.metrics_handler_once",
+        "Wm.Decor.metrics_handler_once_partial",
+        "Wm.Decor.handler_applied_twice_witness",
         "Wm.Decor.router_metrics_exact",
         "Wm.Decor.metrics_handler_each_application",
     ],
@@ -100,7 +137,8 @@ PROP = {
             "batch (finding D15, reported as KNOWN-FINDING). sub: every subscriber stack of depth 0..3 over {transform a, transform b, "
             "metrics} x 4 programs (ack/nack/late ack, Close error, no message, Subscribe error) + random cases incl. Close with unread "
             "messages. rt: a real message.Router with one handler, publisher/subscriber decorated 0..3 times with the metrics decorators, "
-            "middleware once (in 1 of 8 random cases twice or not at all: model conformance only), handler outcome sequences over success "
+            "middleware once (in 1 of 8 random cases twice = finding handler-middleware-applied-twice, reported as KNOWN-FINDING; in 1 of 16 "
+            "not at all = outside the property, model conformance only), handler outcome sequences over success "
             "(0-2 outputs) / error / panic with publisher failure scripts. Prometheus: "
             "private registry, Gather() sample COUNTS per sorted label set compared with the harness' own counts (probe above the metrics "
             "decorator, scripted inner publisher, settled messages, handler invocations). Non-trivial = at least one decorator and one "
@@ -127,12 +165,8 @@ PROP = {
         "'already observed' marks (user code, outside the property)",
         "the messages of one batch are distinct objects; the innermost subscriber hands out fresh message objects (as every "
         "watermill subscriber does)",
-        "the handler metrics middleware has no idempotency mark: registered twice it observes every invocation twice (reproduced on the "
-        "real code: AddPrometheusRouterMetrics twice gives handler_execution_time_seconds count 2 for one invocation, subscriber counter 1); "
-        "'also when applied twice' is read as speaking of the publisher / subscriber decorators – the property's quantifier ranges over "
-        "decorator stacks and its anchors name only the publish/subscribe marks as idempotency mechanism – so the monitor demands one handler "
-        "observation per invocation per registered middleware (theorem metrics_handler_each_application); the stricter reading would make "
-        "this a finding 'handler-middleware-applied-twice'",
+        "the handler metrics middleware not registered at all (km = 0) is outside the property: such Router cases are only compared "
+        "with the model",
         "counts of subscriber_messages_received_total are read at quiescence (the increment happens in a goroutine after the "
         "settlement): all goroutines of the case ended, or the count reached the expected value and stayed unchanged",
     ],
@@ -141,15 +175,19 @@ PROP = {
                    "chain with exactly one stamp that is never overwritten, for/until agreement for every clock reading, one-call-or-none for "
                    "the batch, and exact-once counting of the three metrics for any number of stacked decorators and any outcome / failure "
                    "sequence. metrics_publish_once is proved under the guard 'first message object not yet marked, batch non-empty' "
-                   "(finding D15 open) with two witness theorems for the unguarded statement. Three tie theorems re-interpret the bodies of "
+                   "(finding D15 open) with two witness theorems for the unguarded statement; metrics_handler_once under the guard 'middleware "
+                   "registered once' (finding handler-middleware-applied-twice open: no idempotency mark, each registration observes every "
+                   "invocation) with handler_applied_twice_witness and metrics_handler_each_application as the description of the code. Three tie theorems re-interpret the bodies of "
                    "applyDelay, of the metrics publisher decorator's Publish and of the handler middleware printed from the current source; "
                    "structural facts pin the loops, the pump, the subscriber's counting goroutine, the marks, For/Until/Message; the harness validates the model on the real decorators and a real Router.",
     "level_text": "proof",
     "level_note": "Proved for all inputs over the model (Lean 4, no sorry): transform_transparent / stack_one_call_or_none (every stack, any "
                   "depth), delay_precedence, delay_stamp_exact, delay_stamp_once, delay_for_until_agree (abstract clock), "
-                  "delay_batch_one_call_or_none, metrics_subscribe_once(_run), metrics_handler_once, router_step_*/router_metrics_exact "
+                  "delay_batch_one_call_or_none, metrics_subscribe_once(_run), router_step_*/router_metrics_exact "
                   "(decorators applied k+1 times). Conditional: metrics_publish_once_partial (guard: first message object unmarked, "
-                  "non-empty batch) while finding D15 is open, with republish_undercount_witness / empty_batch_witness. Tie to the code: "
+                  "non-empty batch) while finding D15 is open, with republish_undercount_witness / empty_batch_witness; "
+                  "metrics_handler_once_partial (guard: middleware registered once) while finding handler-middleware-applied-twice is open, "
+                  "with handler_applied_twice_witness and metrics_handler_each_application (what the code does for any number of registrations). Tie to the code: "
                   "generated tie theorems for applyDelay, the metrics publisher decorator and the handler middleware + structural facts + differential harness on the real decorators (sampled "
                   "validation, not a proof); RFC 3339 / Duration.String, Prometheus and real time are outside the model.",
     "technique": "executable functional model with effect lists (Lean 4) + kernel-checked theorems by induction over decorator stacks, batches "
